@@ -8,7 +8,7 @@ from reamber.osu.OsuTimingPointMeta import OsuTimingPointMeta
 
 @item_props()
 class OsuSv(OsuTimingPointMeta, Timed):
-    _props = dict(multiplier=["float", 1.0])
+    _props = dict(multiplier=["float", 1.0], metronome=["int", 4])
 
     def __init__(
         self,
@@ -58,6 +58,7 @@ class OsuSv(OsuTimingPointMeta, Timed):
         d = dict(
             offset=float(s_comma[0]),
             multiplier=OsuSv.code_to_value(float(s_comma[1])),
+            metronome=int(s_comma[2]),
             sample_set=int(s_comma[3]),
             sample_set_index=int(s_comma[4]),
             volume=int(s_comma[5]),
